@@ -585,6 +585,21 @@ func checkC13() fw.Check {
 					}})
 				}
 			}
+			// Paris mode of the SYN trace (constant IP id, the random sequence number is the only per-probe identity):
+			// reachable through the library only
+			for _, first := range []int{1, 2} {
+				first := first
+				cfgs = append(cfgs, c13Cfg{name: fmt.Sprintf("lib-tcpsyn-paris-first%d/N%d", first, n0), n: n0, run: func(l *lab) (c13Out, string) {
+					o := l.helper(map[string]any{"hostname": l.dest(false), "port": 8080, "protocol": "tcp", "tcp_method": "syn", "paris": true, "min_ttl": first, "max_ttl": l.n + 3, "timeout_ms": 1000, "queries": 1, "e2e": 1})
+					if o.err != "" {
+						return o, "library call failed: " + o.err
+					}
+					if len(o.runs) != 1 {
+						return o, "expected one run"
+					}
+					return o, judgeRun(o.runs[0], l.expectChain(first, false), first, true)
+				}})
+			}
 			// several CLI processes at once
 			cfgs = append(cfgs, c13Cfg{name: fmt.Sprintf("parallel-processes/N%d", n0), n: n0, run: func(l *lab) (c13Out, string) {
 				type job struct{ args []string }
